@@ -199,7 +199,14 @@ func (c *Controller) taintOldestN(nodes []*v1.Node, nodeGroup *NodeGroupState, n
 	}
 	sort.Sort(sorted)
 
-	taintedIndices := make([]int, 0, n)
+	capacity := n
+	if capacity > len(nodes) {
+		capacity = len(nodes)
+	}
+	if capacity < 0 {
+		capacity = 0
+	}
+	taintedIndices := make([]int, 0, capacity)
 	for _, bundle := range sorted {
 		// stop at N (or when array is fully iterated)
 		if len(taintedIndices) >= n {
